@@ -186,6 +186,12 @@ func c10Corpus0() []c10Hist {
 			{Op: "perp_liq_boundary", U: 4, Idx: 0, Dir: 2}, {Op: "perp_liq_boundary", U: 4, Idx: 0, Dir: 0},
 			{Op: "perp_trigger_boundary", U: 4, Idx: 0, Dir: 2, Rel: 0, N: 1}, {Op: "perp_trigger_boundary", U: 4, Idx: 0, Dir: 1, Rel: 1, N: 1},
 			{Op: "perp_close", U: 3, Idx: 0, Rel: 0}, {Op: "perp_close", U: 2, Idx: 0, Rel: 5}}},
+		{Ops: []c10Op{ // a short without a take-profit price (0) and a long: a third party's take-profit batch must leave both alone
+			{Op: "perp_open", U: 1, Dir: 1, Amt: "500000000", Lev: "2", Rel: 3}, {Op: "perp_open", U: 2, Dir: 0, Amt: "800000000", Lev: "3", Rel: 0},
+			{Op: "blocks", N: 1, DT: 3700},
+			{Op: "perp_cp", U: 3, Items: []c10Item{{2, 0}, {2, 1}, {1, 0}}}, {Op: "blocks", N: 1, DT: 60},
+			{Op: "perp_cp", U: 4, Items: []c10Item{{2, 1}, {2, 0}}},
+			{Op: "perp_close", U: 1, Idx: 0, Rel: 0}, {Op: "perp_close", U: 2, Idx: 0, Rel: 0}}},
 		{Ops: []c10Op{ // opens at the boundary health == safety factor
 			{Op: "lev_open_boundary", U: 1, Amt: "50000000", Lev: "5"}, {Op: "perp_open_boundary", U: 2, Dir: 0, Amt: "30000000", Lev: "5"},
 			{Op: "perp_open_boundary", U: 3, Dir: 1, Amt: "30000000", Lev: "3", Rel: 1}, {Op: "blocks", N: 1, DT: 60},
@@ -1193,6 +1199,8 @@ func (r *c10Run) perpOpenMsg(op c10Op) *perptypes.MsgOpen {
 			sl = price.Mul(dec("1.3"))
 		case 2:
 			sl = price.Add(sdkmath.LegacySmallestDec())
+		case 3:
+			tp = sdkmath.LegacyZeroDec() // a short may be opened without a take-profit price (only the maximum ratio is checked): it must never fire
 		}
 	} else {
 		if op.Dir >= 2 {
